@@ -66,6 +66,11 @@ CLAIMED["C13"] = dict(
    note="The fine-grained interleavings of the state word (the part the property's rationale stresses), context-cancelled writes and the TCP mux flavour are OUTSIDE this claim: the encoder is sequential. Trusted: encoder, context package executed as real code, fake socket.",
    ref="DESIGN.md §5 C13")
 
+CLAIMED["C18"] = dict(
+   text="(a) isSupportedIPv6Partial and shouldFilterLocationTrackedIP are proved equal to independent bit-pattern predicates for all 2^128 addresses; (b) localInterfaces on a fake transport.Net returns exactly the eligible addresses (soundness and completeness) for symbolic flags/address bytes/filters and every network-type list incl. empty; (c) listenUDPInPortRange: bound port in range and free, never outside the range, ErrPort only after every port was tried once, defaults and min>max; (d) the UDP host path of gatherCandidatesLocal publishes a host candidate for an address iff it is eligible and not link-local, with ports in range and the mDNS name in gather mode, and adopts or closes every socket; (e) cycle control: GatherCandidates refused unless New, setGatheringState of a cancelled cycle is a no-op, exactly one nil candidate on the edge into Complete, Restart returns to New.",
+   note="Bounds: 1-2 interfaces with one IPv4 and one IPv6 address each, port ranges of width <= 4, address pools where the code formats addresses as text. The defect found here (empty NetworkTypes gathered nothing) was repaired (fix e6334ca). Trusted: encoder, z3, fake transport.Net, randutil as arbitrary-in-range, context as real code. Outside: srflx/relay contents, TCP/UDP mux host paths, continual gathering, cycle overlap under real concurrency.",
+   ref="DESIGN.md §5 C18")
+
 NOT_APPLICABLE = {
  "C01": "needs two live agents, a symbolic network scheduler and a fairness (liveness) argument; a sequential encoder of single functions cannot express it (its safety half is covered by the C02/C03 lemmas)",
  "C08": "termination / unblocking of blocked goroutines and a goroutine census: no scheduler or channel model in a sequential SSA encoder",
@@ -76,7 +81,6 @@ NOT_APPLICABLE = {
 NOT_BUILT = {
  "C09": "check not built yet in this round (planned in DESIGN.md §5); not claimed",
  "C15": "check not built yet in this round (planned in DESIGN.md §5); not claimed",
- "C18": "check not built yet in this round (planned in DESIGN.md §5); not claimed",
 }
 
 def main():
